@@ -9,7 +9,7 @@
      first-parent ancestor that wrote the key), the mapping as vmap entries resolved by
      vmap.value over getDistFromRoot(GetAncestry(v)) (vcache.go:388-456), operations applied at
      one version.
-   Flags in [fixes] select the code as it stood (false) or with repo_patches/C08-{1,2,3}-fix (true). *)
+   Flags in [fixes] select the code as it stood (false) or with repo_patches/C08-{1,2,3,5,6,7}-fix (true). *)
 From DV Require Import Base.Prelude Model.Index.
 Local Open Scope N_scope.
 
@@ -17,9 +17,10 @@ Record fixes := {
   fx_maplabel : bool;   (* C08-1: mapLabel returns the label itself when only foreign versions mapped it *)
   fx_renumber : bool;   (* C08-2: renumber refuses a new label that is a mapped supervoxel id *)
   fx_members : bool;    (* C08-3: ModifyBlocks accepts supervoxels the mapping assigns to the label *)
+  fx_reject : bool;     (* C08-5/6/7: merge with the target among the merged, cleave of [], renumber to 0 are refused *)
 }.
-Definition all_fixed : fixes := {| fx_maplabel := true; fx_renumber := true; fx_members := true |}.
-Definition unfixed : fixes := {| fx_maplabel := false; fx_renumber := false; fx_members := false |}.
+Definition all_fixed : fixes := {| fx_maplabel := true; fx_renumber := true; fx_members := true; fx_reject := true |}.
+Definition unfixed : fixes := {| fx_maplabel := false; fx_renumber := false; fx_members := false; fx_reject := false |}.
 
 (* ================= flat machine ================= *)
 Record fstate := {
@@ -92,11 +93,15 @@ Fixpoint all_idx (st : fstate) (ls : list N) : option (list index) :=
 Definition set_all (m : list (N * N)) (svs : list N) (l : N) : list (N * N) :=
   fold_left (fun m s => aset N.eqb s l m) svs m.
 
-Definition f_merge (st : fstate) (target : N) (merged : list N) : res fstate :=
+(* Without C08-5 a request with the target among the merged labels is answered with an error
+   only after the mapping of the other merged bodies has been rewritten; the model returns Err
+   for it in both cases and does not reproduce that partial write. *)
+Definition f_merge (fx : fixes) (st : fstate) (target : N) (merged : list N) : res fstate :=
   let ms := nodupN merged in       (* op.Merged is a set *)
   match ms with
   | [] => Err
   | _ =>
+    if fx_reject fx && memN target ms then Err else
     match all_idx st ms, get_idx st target with
     | Some midxs, Some tidx =>
       match idx_add_all [] midxs with
@@ -119,14 +124,17 @@ Definition f_merge (st : fstate) (target : N) (merged : list N) : res fstate :=
 Fixpoint nodupb (l : list N) : bool :=
   match l with [] => true | x :: r => negb (memN x r) && nodupb r end.
 
-Definition f_cleave (st : fstate) (body : N) (svs : list N) (newl : N) : res fstate :=
+Definition f_cleave (fx : fixes) (st : fstate) (body : N) (svs : list N) (newl : N) : res fstate :=
   match get_idx st body with
   | None => Err
   | Some idx =>
     if negb (nodupb svs) || negb (forallb (sv_in idx) svs) then Err
     else if forallb (fun s => memN s svs) (supervoxels idx) then Err       (* nothing would remain *)
     else match svs with
-         | [] => Err    (* see notes: the code stores an empty index under the new label here *)
+         | [] =>
+           (* the code as it stood stores an empty index under the new label and returns 200 *)
+           if fx_reject fx then Err
+           else Ok {| f_vox := f_vox st; f_map := f_map st; f_idx := aset N.eqb newl [] (f_idx st) |}
          | _ =>
            let '(_, _, c, r) := idx_cleave idx svs in
            Ok {| f_vox := f_vox st;
@@ -197,7 +205,8 @@ Definition f_splitsv (st : fstate) (sv split remain : N) (masks : list (N * list
 
 (* ---- renumber (mutate.go:206 RenumberLabels) ---- *)
 Definition f_renumber (fx : fixes) (st : fstate) (old new : N) : res fstate :=
-  if ahas N.eqb new (f_idx st) then Err
+  if fx_reject fx && ((new =? 0) || (old =? 0)) then Err
+  else if ahas N.eqb new (f_idx st) then Err
   else if fx_renumber fx && match aget N.eqb new (f_map st) with Some l => negb (l =? 0) | None => false end
   then Err
   else match get_idx st old with
@@ -281,8 +290,8 @@ Definition fstep (fx : fixes) (aggl : N -> N) (st : fstate) (o : op) : res fstat
   | OPutMappings l => Ok {| f_vox := f_vox st;
                             f_map := fold_left (fun m p => aset N.eqb (fst p) (snd p) m) l (f_map st);
                             f_idx := f_idx st |}
-  | OMerge t ms => f_merge st t ms
-  | OCleave b svs n => f_cleave st b svs n
+  | OMerge t ms => f_merge fx st t ms
+  | OCleave b svs n => f_cleave fx st b svs n
   | OSplitSV sv sp re masks rl => f_splitsv st sv sp re masks rl
   | ORenumber a b => f_renumber fx st a b
   | OSplit b n masks sm => f_split st b n masks sm
